@@ -163,33 +163,55 @@ Theorem C19_canvas_cells_regular : forall d i j, wf_rdraw d = true -> i < nrows 
   text_from_rect (cv_text (regular_canvas d)) (cell_rect d i j) = Ok (cell_text d i j).
 Proof. exact cells_regular_drawing. Qed.
 
-(* PARTIAL (bounded): the whole chain text -> lines -> canvas -> plane gives exactly the drawn plane (information item name absent,
-   every cell with its region number, rectangle and text, the double-line cells and crossings) for the tables sample ni no na nr with
-   1..3 inputs, 1..3 outputs, 0..2 annotations, 1..3 rules (81 shapes, column widths 2..4, finite sweep by vm_compute).
-   MISSING for the statement `canvas_cplane (draw d) = Ok (None, expected_plane d)` for every wf_rdraw d: (a) splitting the text back into
-   the lines of the grid (scan_layers (draw d) = (T d, B d)), (b) the enumeration of the top-left corners of THIN / GRID line by line,
-   the numbering of the regions and the assembly of the plane rows by the walk of Canvas::plane; the per-cell steps of (b) are
-   C19_canvas_cells_regular, the passes before it C19_canvas_scan_regular, both for every shape *)
-Theorem C19_draw_roundtrip_regular_bounded_partial : forall ni no na nr, In (ni, no, na, nr) shapes ->
-  let d := table_drawing (sample ni no na nr) in
-  wf_rdraw d = true /\ outcome_eqb (canvas_cplane (draw d)) (Ok (None, expected_plane d)) = true.
-Proof. exact plane_bounded. Qed.
+(* text -> plane for EVERY well-formed regular drawing (C19/CanvasAssembly.v; any numbers of columns and lines, any widths, any plain texts):
+   the text made by `draw` splits back into the lines of the grid, and the whole chain lines -> canvas -> regions -> walk of Canvas::plane ->
+   Plane::finalize gives exactly the drawn plane: no information item name, every cell with its region NUMBER (row-major), RECTANGLE and TEXT,
+   the cells of the double lines and the line of the crossings *)
+From DV Require Import C19.CanvasAssembly C19.CanvasTable.
 
-(* PARTIAL (bounded, same 81 shapes): text -> table end to end: the plane built from the text (region texts through an injective coding of
-   strings) is recognised by the plane-level model as rules-as-rows with the drawn hit policy, the drawn number of rules and exactly the
-   fields of the drawn table.  MISSING for every shape: the general form of the previous theorem, then composition with
-   C19_plane_roundtrip_rows (region numbers of the code instead of the ids of layout_rows: recognition with one header line never
-   compares ids) *)
-Theorem C19_text_to_table_bounded_partial : forall ni no na nr, In (ni, no, na, nr) shapes -> table_ok (ni, no, na, nr) = true.
-Proof. exact table_bounded. Qed.
+Theorem C19_scan_layers_regular : forall d, wf_rdraw d = true -> scan_layers (draw d) = (CanvasProofs.T d, CanvasProofs.B d).
+Proof. exact scan_layers_regular. Qed.
 
+Theorem C19_draw_roundtrip_regular : forall code d, wf_rdraw d = true ->
+  canvas_cplane (draw d) = Ok (None, expected_plane d) /\
+  canvas_to_plane code (draw d) = Some (map (map (abs_cell code)) (expected_plane d)).
+Proof. exact draw_roundtrip_regular. Qed.
+
+(* two planes that differ only in the names of their regions are recognised alike when one is a rules-as-rows plane with ONE header line
+   (the recogniser compares region names only to tell two or three header lines apart) *)
+Theorem C19_recognize_plane_names_erased : forall parse_hp parse_num p q hp n px,
+  E p = E q -> orientation parse_hp parse_num p = Some (AsRow, hp, n) -> find_plane is_main (tails p) = Some (px, 1) ->
+  recognize_plane parse_hp parse_num q = recognize_plane parse_hp parse_num p.
+Proof. exact recognize_plane_erased. Qed.
+
+(* text -> table END TO END for every rules-as-rows table drawn in the regular style with one header line (any numbers of inputs, outputs,
+   annotations and rules, any column widths, any plain texts: wf_stable, C19/CanvasTable.v): the plane built from the characters
+   (region texts through any coding of strings) is recognised by the plane-level model as rules-as-rows with the drawn hit policy, the
+   drawn number of rules and exactly the fields of the drawn table, for any text parsers that read the hit-policy cell and the number
+   cell of the k-th rule (k from 0) as S k *)
+Theorem C19_text_to_table_regular : forall code s, wf_stable s = true ->
+  forall parse_hp parse_num hp, parse_hp (code (s_hp s)) = Some hp ->
+  (forall k n i o a, nth_error (s_rules s) k = Some (n, i, o, a) -> parse_num (code n) = Some (S k)) ->
+  exists p, canvas_to_plane code (draw (table_drawing s)) = Some p /\
+            recognize_plane parse_hp parse_num p = Some (AsRow, hp, length (s_rules s), fields_of (abs_table code s)).
+Proof. exact text_to_table. Qed.
+
+(* the hypotheses of the two general theorems are met by a non-trivial table; the two sweeps of C19/CanvasSweep.v (81 shapes, vm_compute,
+   formerly the bounded `_partial` theorems, now subsumed) are kept there as an independent computation of the same statements *)
 Example C19_canvas_nonvacuous :
   let d := table_drawing (sample 2 2 1 2) in
-  wf_rdraw d = true /\ ncols d = 6 /\ nrows d = 3 /\ rd_v1 d = 3 /\ rd_v2 d = Some 5 /\ length (draw d) = 161 /\ plane_ok (2, 2, 1, 2) = true /\ table_ok (2, 2, 1, 2) = true.
+  wf_rdraw d = true /\ wf_stable (sample 2 2 1 2) = true /\
+  ncols d = 6 /\ nrows d = 3 /\ rd_v1 d = 3 /\ rd_v2 d = Some 5 /\ length (draw d) = 161 /\ plane_ok (2, 2, 1, 2) = true /\ table_ok (2, 2, 1, 2) = true /\
+  CanvasSweep.parse_hp (CanvasSweep.code (s_hp (sample 2 2 1 2))) = Some 1%N /\
+  forallb (fun k => match nth_error (s_rules (sample 2 2 1 2)) k with
+                    | Some (n, _, _, _) => match CanvasSweep.parse_num (CanvasSweep.code n) with Some r => r =? S k | None => false end
+                    | None => false end) [0; 1] = true.
 Proof. vm_compute. repeat split. Qed.
 
 Print Assumptions C19_canvas_scan_regular.
 Print Assumptions C19_canvas_cells_regular.
-Print Assumptions C19_draw_roundtrip_regular_bounded_partial.
-Print Assumptions C19_text_to_table_bounded_partial.
+Print Assumptions C19_scan_layers_regular.
+Print Assumptions C19_draw_roundtrip_regular.
+Print Assumptions C19_recognize_plane_names_erased.
+Print Assumptions C19_text_to_table_regular.
 Print Assumptions C19_canvas_nonvacuous.
